@@ -405,7 +405,16 @@ def operand_values(rng, spec, a):
     if vc == "offset":
         return rng.standard_normal(shape) * 0.5 + 300.0          # |mean|/std = 600: a one-pass variance cancels catastrophically in float32
     if vc == "huge":
-        return rng.uniform(-800.0, 800.0, shape)
+        v_ = np.asarray(rng.uniform(-800.0, 800.0, shape), dtype=np.float64)
+        # never left to the draw: values beyond the exp limits of float32 (88.7) and float64 (709.8), on both sides
+        plant = [750.0, -750.0, 95.0, -95.0, 720.0, -100.0]
+        if v_.ndim == 0:
+            return np.asarray(plant[int(rng.integers(len(plant)))])
+        flat = v_.reshape(-1)
+        pos = rng.permutation(flat.size)[:len(plant)]
+        for k_, i_ in enumerate(pos):
+            flat[i_] = plant[k_]
+        return flat.reshape(v_.shape)
     if vc == "tails":
         # where a squashing function is tiny but far from underflow: relative accuracy matters there
         return rng.uniform(16.0, 80.0, shape) * rng.choice([-1.0, -1.0, -1.0, 1.0], shape)
